@@ -91,6 +91,13 @@ func (w *RecWriter) Write(b []byte) (int, error) {
 	return len(b), nil
 }
 
+// WriteString makes the recording writer an io.StringWriter, as net/http's own response writer is.  rux writes
+// through Write; a call that reaches the underlying writer this way went around the wrapper and is recorded as such.
+func (w *RecWriter) WriteString(s string) (int, error) {
+	w.Calls = append(w.Calls, Call{Kind: "WriteString(around the wrapper)"})
+	return w.Write([]byte(s))
+}
+
 func (w *RecWriter) Flush() { w.Calls = append(w.Calls, Call{Kind: "Flush"}) }
 
 // Hijack records the take-over of the connection (there is no real connection behind a recording writer).
